@@ -891,14 +891,14 @@ func lemmaCreateThenMapQueue(data []byte, cap uint32) {
 //@   modifies heap
 
 //@ func (*Stream).Close
-//@   preserves s.session.shutdown != 1 ==> sessOK(s.session)
+//@   preserves[C10,C05,C09] s.session.shutdown != 1 ==> sessOK(s.session)
 //@   at call sync/atomic.CompareAndSwapUint32#0 hint[C10] a1 == 0 && a2 == 2
 //@   modifies heap
 
 // close: the only path to 'closed'. ghost won: this call performed the transition; cbs: callbacks issued;
 // notified: a close notification was handed to the queue or to the event connection; cleaned: clean() ran
 //@ func (*Stream).close
-//@   preserves s.session.shutdown != 1 ==> sessOK(s.session)
+//@   preserves[C10,C05,C09] s.session.shutdown != 1 ==> sessOK(s.session)
 //@   ghost var won bool = false
 //@   ghost var cbs int = 0
 //@   ghost var notified bool = false
